@@ -352,7 +352,8 @@ class Check:
             "wall_s": round(wall, 2),
             "violations": len(self.violations) + (1 if (not self.violations and (self.mismatches or self.broken)) else 0),
         }
-        if not self.replay:
+        if not self.replay and REPO == "/repo":
+            # runs against a scratch copy (VERIF_REPO) or replays never overwrite the evidence
             write_json(os.path.join(VERIF, "evidence", prop + ".json"), ev)
         for l in lines:
             log(l)
